@@ -164,15 +164,18 @@ func (t *Trace) Note(s string) {
 
 // ---- Recorder: one real tree, every call logged -------------------------------
 
+// (RangeC: Range on a kind for which its content has no map-level meaning - collation - logged for the drift check)
 type Battery struct {
-	Search  bool // Search of every universe key
-	Iter    bool // All, Backward
-	MinMax  bool
-	TopK    bool
-	Range   int // number of bound pairs (-1 = all)
-	Prefix  int // number of probes (-1 = all)
-	IterChk int // number of abandon/re-iterate checks
-	Dump    bool
+	IterOnly []string // restrict the abandon / re-iterate checks to these sequence methods
+	RangeC   int
+	Search   bool // Search of every universe key
+	Iter     bool // All, Backward
+	MinMax   bool
+	TopK     bool
+	Range    int // number of bound pairs (-1 = all)
+	Prefix   int // number of probes (-1 = all)
+	IterChk  int // number of abandon/re-iterate checks
+	Dump     bool
 }
 
 type Rec struct {
@@ -196,6 +199,7 @@ type Rec struct {
 	AfterCreate func()
 	NoBatch     bool
 	probes      []int
+	iterOnly    []string
 }
 
 func NewRec(d TreeDriver, t int, tr *Trace, seed int64) *Rec {
@@ -545,6 +549,26 @@ func (r *Rec) Seq(name string, a, b, n int) {
 	r.tail(pan, false)
 }
 
+// rangeC logs Range of a collation tree (no verdict depends on it; compared with the L1 model as drift).
+func (r *Rec) rangeC(a, b int) {
+	if r.Dead {
+		return
+	}
+	var ks, vs []int
+	pan := guard(func() {
+		for k, v := range r.D.Seq("RangeAny", a, b, 0) {
+			ks = append(ks, k)
+			vs = append(vs, v)
+		}
+	})
+	r.Tr.start("RangeC")
+	r.Tr.fInt("a", a)
+	r.Tr.fInt("b", b)
+	r.Tr.fInts("keys", ks)
+	r.Tr.fInts("vals", vs)
+	r.tail(pan, false)
+}
+
 // IterCheck builds ONE sequence value and ranges over it several times, stopping
 // after stops[i] elements (-1: run to completion); counts callbacks after a stop.
 func (r *Rec) IterCheck(name string, a, b, n int, stops []int) {
@@ -726,6 +750,12 @@ func (r *Rec) RunBattery(bt Battery) {
 			}
 		}
 	}
+	if bt.RangeC > 0 && !d.HasRange() {
+		for i := 0; i < bt.RangeC && !r.Dead; i++ {
+			r.rangeC(1+r.R.Intn(n), 1+r.R.Intn(n))
+		}
+	}
+	r.iterOnly = bt.IterOnly
 	for i := 0; i < bt.IterChk && !r.Dead; i++ {
 		r.randomIterCheck(sz)
 	}
@@ -769,6 +799,20 @@ func (r *Rec) randomIterCheck(sz int) {
 	if d.HasPrefix() {
 		names = append(names, "Prefix")
 	}
+	if len(r.iterOnly) > 0 {
+		var keep []string
+		for _, nm := range names {
+			for _, o := range r.iterOnly {
+				if nm == o {
+					keep = append(keep, nm)
+				}
+			}
+		}
+		if len(keep) == 0 {
+			return
+		}
+		names = keep
+	}
 	name := names[r.R.Intn(len(names))]
 	a, b, k := 0, 0, 0
 	switch name {
@@ -785,6 +829,9 @@ func (r *Rec) randomIterCheck(sz int) {
 			b = n // upper bound at or above every stored key
 		}
 		if !d.RangeOK(a, b) || (d.Family() == "alpha" && len(d.Universe()[b-1].O) == 0) {
+			if len(r.iterOnly) > 0 {
+				return
+			}
 			name = "All"
 		}
 	case "Prefix":
